@@ -231,6 +231,139 @@ theorem goldilocks_64_not_unique [CharP K 18446744069414584321] (v : ℕ) (hv : 
       (canonBits 64 (v + 18446744069414584321) : List K) ≠ canonBits 64 v :=
   bits_not_unique 18446744069414584321 64 v (by omega) (by norm_num; omega)
 
+/-! ### the repaired gadget (fixes/C12-1.diff): full-width limbs are compared with `p` -/
+
+omit [CharP K p] in
+/-- Expansion split at the most significant bit. -/
+theorem canonBits_succ_last (n m : ℕ) :
+    (canonBits (n + 1) m : List K) =
+      canonBits n (m % 2 ^ n) ++ [if (m / 2 ^ n) % 2 = 1 then 1 else 0] := by
+  induction n generalizing m with
+  | zero => simp [canonBits, natBits]
+  | succ n ih =>
+    rw [canonBits_succ, ih (m / 2), canonBits_succ n (m % 2 ^ (n + 1))]
+    have h1 : m % 2 ^ (n + 1) % 2 = m % 2 := by
+      rw [pow_succ', Nat.mod_mul_right_mod]
+    have h2 : m % 2 ^ (n + 1) / 2 = m / 2 % 2 ^ n := by
+      rw [pow_succ', Nat.mod_mul_right_div_self]
+    have h3 : m / 2 / 2 ^ n = m / 2 ^ (n + 1) := by
+      rw [Nat.div_div_eq_div_mul, ← pow_succ']
+    rw [h1, h2, h3]
+    simp
+
+omit [CharP K p] in
+/-- Value of the comparison chain on an `n`-bit expansion. -/
+theorem ltGo_canon (q n m : ℕ) (hm : m < 2 ^ n) (eq lt : K) :
+    ltGo q (canonBits n m : List K).reverse eq lt =
+      lt + eq * (if m < q % 2 ^ n then 1 else 0) := by
+  induction n generalizing m eq lt with
+  | zero =>
+    have : m = 0 := by simpa using hm
+    simp [canonBits, natBits, ltGo, Nat.mod_one, this]
+  | succ n ih =>
+    rw [canonBits_succ_last, List.reverse_append, List.reverse_singleton, List.singleton_append,
+      ltGo, List.length_reverse, canonBits_length, Nat.shiftRight_eq_div_pow]
+    have hX : 0 < 2 ^ n := Nat.pos_of_ne_zero (by positivity)
+    have hm' : m % 2 ^ n < 2 ^ n := Nat.mod_lt _ hX
+    have hq' : q % 2 ^ n < 2 ^ n := Nat.mod_lt _ hX
+    have hsplit := Nat.mod_add_div m (2 ^ n)
+    have hqs : q % 2 ^ (n + 1) = q % 2 ^ n + 2 ^ n * (q / 2 ^ n % 2) := Nat.mod_pow_succ
+    have hmb : m / 2 ^ n < 2 := by
+      rw [Nat.div_lt_iff_lt_mul hX]; rw [pow_succ] at hm; omega
+    rcases Nat.mod_two_eq_zero_or_one (q / 2 ^ n) with hq | hq
+    · -- bit of the modulus is 0
+      rw [if_neg (by omega), ih _ hm', hqs, hq]
+      obtain h0 | h1 : m / 2 ^ n = 0 ∨ m / 2 ^ n = 1 := by
+        generalize m / 2 ^ n = z at hmb ⊢; omega
+      · have hmeq : m = m % 2 ^ n := by rw [h0] at hsplit; omega
+        have : (m < q % 2 ^ n + 2 ^ n * 0) ↔ (m % 2 ^ n < q % 2 ^ n) := by omega
+        simp only [h0, this]; simp
+      · have hge : ¬ m < q % 2 ^ n + 2 ^ n * 0 := by rw [h1] at hsplit; omega
+        simp only [h1, hge]; simp
+    · -- bit of the modulus is 1
+      rw [if_pos hq, ih _ hm', hqs, hq]
+      obtain h0 | h1 : m / 2 ^ n = 0 ∨ m / 2 ^ n = 1 := by
+        generalize m / 2 ^ n = z at hmb ⊢; omega
+      · have hlt : m < q % 2 ^ n + 2 ^ n * 1 := by rw [h0] at hsplit; omega
+        simp only [h0, hlt]; simp
+      · have : (m < q % 2 ^ n + 2 ^ n * 1) ↔ (m % 2 ^ n < q % 2 ^ n) := by
+          rw [h1] at hsplit; omega
+        simp only [h1, this]; simp
+
+omit [CharP K p] in
+theorem belowModulus_canon (q n m : ℕ) (hm : m < 2 ^ n) (hq : q < 2 ^ n) :
+    belowModulus q (canonBits n m : List K) = true ↔ m < q := by
+  unfold belowModulus
+  rw [ltGo_canon q n m hm, Nat.mod_eq_of_lt hq, beq_iff_eq]
+  by_cases h : m < q <;> simp [h]
+
+/-- **C12 / bits, repaired gadget: complete characterisation.** For `w = BF::bits()`
+(`2^(w-1) ≤ p < 2^w`) and every width `n ≤ w`, the only slot contents the repaired relation
+accepts for `x = v < p` are the canonical bits of `v` (and `v` must fit in `n` bits). -/
+theorem accept_fixed_iff (w n : ℕ) (hlow : 2 ^ (w - 1) ≤ p) (hp : p < 2 ^ w) (hn : n ≤ w)
+    (bits : List K) (hlen : bits.length = n) (v : ℕ) (hv : v < p) :
+    bitsAcceptFixed p w (v : K) bits = true ↔ v < 2 ^ n ∧ bits = canonBits n v := by
+  unfold bitsAcceptFixed
+  rw [Bool.and_eq_true, Bool.or_eq_true, bne_iff_ne, hlen]
+  constructor
+  · rintro ⟨hacc, hfull⟩
+    obtain ⟨k, hk, hbits⟩ := (accept_iff p n bits hlen v hv).1 hacc
+    have hk0 : k = 0 := by
+      rcases Nat.lt_or_ge n w with hlt | hge
+      · -- short limb: 2^n ≤ 2^(w-1) ≤ p
+        have : 2 ^ n ≤ 2 ^ (w - 1) := Nat.pow_le_pow_right (by norm_num) (by omega)
+        rcases k with _ | k
+        · rfl
+        · exfalso; rw [Nat.succ_mul] at hk; omega
+      · have hnw : n = w := by omega
+        rcases hfull with h | h
+        · exact absurd hnw h
+        · rw [hbits, belowModulus_canon p n _ hk (by rw [hnw]; exact hp)] at h
+          rcases k with _ | k
+          · rfl
+          · exfalso; rw [Nat.succ_mul] at h; omega
+    subst hk0
+    simp only [Nat.zero_mul, Nat.add_zero] at hk hbits
+    exact ⟨hk, hbits⟩
+  · rintro ⟨hfit, hbits⟩
+    refine ⟨(accept_iff p n bits hlen v hv).2 ⟨0, by simpa using hfit, by simpa using hbits⟩, ?_⟩
+    by_cases hnw : n = w
+    · right
+      rw [hbits, belowModulus_canon p n v hfit (by rw [hnw]; exact hp)]
+      exact hv
+    · exact Or.inl hnw
+
+/-- **C12 / bits: the full statement holds for the repaired gadget** (single limb, every
+width `n ≤ BF::bits()`, every field of characteristic `p`, every slot content). -/
+theorem bits_canonical_fixed (w n : ℕ) (hlow : 2 ^ (w - 1) ≤ p) (hp : p < 2 ^ w) (hn : n ≤ w)
+    (bits : List K) (hlen : bits.length = n) (v : ℕ) (hv : v < p)
+    (hacc : bitsAcceptFixed p w (v : K) bits = true) : bits = canonBits n v :=
+  ((accept_fixed_iff p w n hlow hp hn bits hlen v hv).1 hacc).2
+
+/-- Completeness of the repair: the honest hint is still accepted. -/
+theorem fixed_canon_accept (w n : ℕ) (hlow : 2 ^ (w - 1) ≤ p) (hp : p < 2 ^ w) (hn : n ≤ w)
+    (v : ℕ) (hv : v < p) (hfit : v < 2 ^ n) :
+    bitsAcceptFixed p w (v : K) (canonBits n v : List K) = true :=
+  (accept_fixed_iff p w n hlow hp hn _ (canonBits_length _ _) v hv).2 ⟨hfit, rfl⟩
+
+/-- Call sites after the repair (`sample_bits`, `check_pow_witness`, WHIR: `n = w = BF::bits()`). -/
+theorem babybear_31_unique_fixed [CharP K 2013265921] (bits : List K) (hlen : bits.length = 31)
+    (v : ℕ) (hv : v < 2013265921) (hacc : bitsAcceptFixed 2013265921 31 (v : K) bits = true) :
+    bits = canonBits 31 v :=
+  bits_canonical_fixed 2013265921 31 31 (by norm_num) (by norm_num) le_rfl bits hlen v hv hacc
+
+theorem koalabear_31_unique_fixed [CharP K 2130706433] (bits : List K) (hlen : bits.length = 31)
+    (v : ℕ) (hv : v < 2130706433) (hacc : bitsAcceptFixed 2130706433 31 (v : K) bits = true) :
+    bits = canonBits 31 v :=
+  bits_canonical_fixed 2130706433 31 31 (by norm_num) (by norm_num) le_rfl bits hlen v hv hacc
+
+theorem goldilocks_64_unique_fixed [CharP K 18446744069414584321] (bits : List K)
+    (hlen : bits.length = 64) (v : ℕ) (hv : v < 18446744069414584321)
+    (hacc : bitsAcceptFixed 18446744069414584321 64 (v : K) bits = true) :
+    bits = canonBits 64 v :=
+  bits_canonical_fixed 18446744069414584321 64 64 (by norm_num) (by norm_num) le_rfl bits hlen v hv
+    hacc
+
 end Bits
 
 /-! ## coefficients -/
